@@ -8,7 +8,7 @@ sys.path.insert(0, os.path.dirname(os.path.abspath(__file__)))
 
 VERIF = os.path.dirname(os.path.dirname(os.path.abspath(__file__)))
 
-HOOK_COMMITS = ["a18317b", "8482a65"]
+HOOK_COMMITS = ["a18317b", "8482a65", "1b990a1"]
 
 from claims import CLAIMED  # noqa: E402
 
